@@ -1,6 +1,6 @@
 (** C05 — Each transmission is reported once, in order; repeats suppressed only in-window. *)
 From Sameold Require Import Base.Bytes Model.Header Model.Combiner Model.Assembler
-  Proofs.CombinerP Proofs.AssemblerP.
+  Proofs.CombinerP Proofs.AssemblerP Proofs.TransmissionP.
 
 (** For EVERY history of burst arrivals and idle polls with a monotone symbol clock, from the
     initial state: two consecutive reports with the same text are at least
@@ -52,6 +52,33 @@ Theorem C05_trailer_reported_once : forall prev0 n1 n2 n3 t1 t2 t3 polls1 polls2
   = [(t1, Ok EOM)].
 Proof. exact trailer_one_eom. Qed.
 Print Assumptions C05_trailer_reported_once.
+
+
+(** In order: a second, different transmission after the first has been reported.  The history still
+    holds the last two bursts [x], [y] of the first transmission and the duplicate record its header
+    [ha] (alive throughout).  The first new burst votes with them to [ha] again or to nothing
+    (suppressed), bursts two and three establish the new header [hb]: reported once, 682 symbols after
+    the third burst — after [ha], which was reported before this history began.  (A new header that
+    starts BEFORE the first one's hold has expired displaces it: known finding F1.) *)
+Theorem C05_follow_on_transmission_reported_once_and_after :
+  forall x y ha hb d b1 b2 b3 t1 t2 t3 polls1 polls2 polls3,
+  b1 <> [] -> b2 <> [] -> b3 <> [] ->
+  h_text ha <> h_text hb -> h_text hb <> PREFIX_MESSAGE_END ->
+  t3 < t_deadline x -> t3 < t_deadline y -> t3 < d ->
+  dup_or_none ha (combine [t_data x; t_data y; trunc b1]) ->
+  votes_le [t_data y; trunc b1; trunc b2] hb ->
+  combine [trunc b1; trunc b2; trunc b3] = Some (Ok (SOM hb)) ->
+  t1 <= t2 -> t2 <= t3 -> t3 < t1 + MAX_HISTORY_DURATION ->
+  Forall (fun n => n < t3) polls1 ->
+  Forall (fun n => n < t2 + MAX_INTERBURST_SYMBOLS /\ n < t3) polls2 ->
+  som_reports (fst (asm_run (mkAsm [x; y] None (Some (mkTimed (SOM ha) d)))
+      (OBurst b1 t1 :: map OIdle polls1 ++ OBurst b2 t2 :: map OIdle polls2 ++ OBurst b3 t3 :: map OIdle polls3)))
+  = match find (fun n => t3 + MAX_INTERBURST_SYMBOLS <=? n) polls3 with
+    | Some tf => [(tf, hb)]
+    | None => []
+    end.
+Proof. exact follow_on_reported_once. Qed.
+Print Assumptions C05_follow_on_transmission_reported_once_and_after.
 
 (** KNOWN FINDINGS (false of the faithful model; replayed on the implementation by the check):
     F1: a different header one second after the first: the first is never reported *)
